@@ -155,6 +155,29 @@ def _specialise(e, k, env):
     return e
 
 
+_REDUCER_CALLS = {"mod", "remainder", "fmod", "where", "take", "divmod"}
+
+
+def _offset_unreduced(e, at, cfg, depth=0):
+    """True when a horizon-dependent offset occurs in index expression ``e`` outside every ring reduction (%, np.mod, np.where, take)."""
+    if depth > 10:
+        return False
+    if isinstance(e, ast.BinOp) and isinstance(e.op, ast.Mod):
+        return False
+    if isinstance(e, ast.Call) and ((isinstance(e.func, ast.Attribute) and e.func.attr in _REDUCER_CALLS) or (isinstance(e.func, ast.Name) and e.func.id in _REDUCER_CALLS)):
+        return False
+    if isinstance(e, ast.Name):
+        if e.id == "horizon":
+            return True
+        ds = cfg.defs_of(at, e.id)
+        if len(ds) == 1 and ds[0].kind == "assign" and ds[0].value is not None:
+            return _offset_unreduced(ds[0].value, ds[0].node, cfg, depth + 1)
+        return False
+    if isinstance(e, ast.Subscript):
+        return _offset_unreduced(e.value, at, cfg, depth + 1)
+    return any(_offset_unreduced(c, at, cfg, depth + 1) for c in ast.iter_child_nodes(e))
+
+
 def _gather_index(e):
     """IDX of the (single) `self.buffer[k][IDX]` gather inside expression e."""
     gs = [n for n in ast.walk(e) if isinstance(n, ast.Subscript) and isinstance(n.value, ast.Subscript) and dotted(n.value.value) == "self.buffer"
@@ -359,7 +382,7 @@ def run(ck, repo: Repo, tier: str):
         if not ok:
             if start_c not in got:
                 why = f"the gather index of `{key}` does not derive from the sampled start index: the field comes from another transition than the rest of the row"
-            elif role == "last" and not any(r in got for r in REDUCERS):
+            elif role == "last" and _offset_unreduced(ix, at, c4):
                 why = (f"the successor index of `{key}` ({got[:90]}) is an offset from the start that is never reduced modulo the ring length: "
                        "windows that wrap around the end of the storage read the wrong slot (or clamp to the last slot)")
             elif role == "last" and got.startswith(w_all + "["):
